@@ -14,7 +14,7 @@ from ..model_ac import ModelAC
 ID = "C07"
 LEVEL = "exploration"
 SHARDS = {"quick": 8, "thorough": 16}
-RULE = ("model-based histories against a model V3 device (configuration: max connection lifetime in {None, 30 s, 600 s}); events "
+RULE = ("model-based histories against a model V3 device (configuration: max connection lifetime in {None, 30 s, 600 s}; credentials, which begin with zero bytes, passed as bytes or as hex strings); events "
         "from {send, send with the device silent, send answered by an error packet, send during which the peer closes, next "
         "connect refused, explicit authenticate with good credentials / bad token / bad key / while the device ignores handshakes / while the device refuses connections, a send whose handshake reply arrives damaged, sleep past 12 h, sleep past the "
         "connection lifetime, short sleep, cancel the running send/authenticate at a protocol phase}; up to 30 (quick) / 60 "
@@ -31,8 +31,9 @@ ASSUMPTIONS = ["every history starts with an explicit authenticate call (success
                "lifetime is configuration (set before the first connect)", "'silent' means never answered; late answers are C08's domain",
                "expiry is one-directional: re-handshaking earlier than required is not a violation"]
 
-TOKEN = hashlib.sha512(b"c07 token").digest()
-KEY = hashlib.sha256(b"c07 key").digest()
+# credentials with leading zero bytes / zero nibbles (text conversions must not lose them)
+TOKEN = b"\x00\x0a" + hashlib.sha512(b"c07 token").digest()[2:]
+KEY = b"\x00" + hashlib.sha256(b"c07 key").digest()[1:]
 BAD_TOKEN = hashlib.sha512(b"c07 bad token").digest()
 BAD_KEY = hashlib.sha256(b"c07 bad key").digest()
 FRAME = bytes.fromhex("aa21ac8d000000000003418100ff03ff000200000000000000000000000003016971")
@@ -181,7 +182,10 @@ def check_history(case: dict):
                     faulted = True
                     await lan.send(FRAME)
                 elif k == "auth_good":
-                    await ac.authenticate(TOKEN, KEY)
+                    if case["config"].get("hex"):
+                        await ac.authenticate(TOKEN.hex(), KEY.hex())      # as the CLI / cloud hand them over
+                    else:
+                        await ac.authenticate(TOKEN, KEY)
                 elif k == "auth_bad_token":
                     mode["expect"] = BAD_TOKEN
                     faulted = True
@@ -375,7 +379,7 @@ def run(ctx) -> None:
     for lifetime in (None, 30, 600):
         for prefix in (["send"], ["send", "send_silent"], ["send", "auth_bad_key", "send"], ["send", "send_error"], ["send", "send_close"]):
             for tail in (["sleep_12h", 0], ["sleep_life", 0], ["sleep", 29.0], ["sleep", 31.0]):
-                scripts.append({"config": {"lifetime": lifetime}, "events": [["auth_good"]] + [[p] for p in prefix] + [tail, ["send"], ["send"]]})
+                scripts.append({"config": {"lifetime": lifetime, "hex": len(scripts) % 2 == 0}, "events": [["auth_good"]] + [[p] for p in prefix] + [tail, ["send"], ["send"]]})
                 scripts.append({"config": {"lifetime": lifetime}, "events": [["auth_good"]] + [[p] for p in prefix] + [tail, ["auth_bad_key"], ["send"], ["send"]]})
                 scripts.append({"config": {"lifetime": lifetime}, "events": [["auth_good"]] + [[p] for p in prefix] + [tail, ["send_garbled_hs"], ["send"]]})
         for first_ev in (["auth_silent"], ["auth_refused"], ["cancel", 0.02, "auth"], ["cancel", 0.5, "auth"], ["auth_bad_token"], ["auth_bad_key"]):
@@ -384,6 +388,6 @@ def run(ctx) -> None:
         if ctx.mine(i + 2):
             ctx.check(case, lambda c: _run_one(ctx, c))
     ctx.sweep("long sessions + scripted expiry histories", len(longs) + len(scripts), True)
-    cases = st.fixed_dictionaries({"config": st.fixed_dictionaries({"lifetime": st.sampled_from([None, 30, 600])}),
+    cases = st.fixed_dictionaries({"config": st.fixed_dictionaries({"lifetime": st.sampled_from([None, 30, 600]), "hex": st.booleans()}),
                                    "events": events(30 if ctx.quick else 60)})
     ctx.hyp("histories", cases, lambda c: _run_one(ctx, c), ctx.n(3200, 200000))
